@@ -102,6 +102,15 @@ _PRINT_RE = re.compile(r'^<<"([A-Z]+)", "(.*)">>$')
 def parse_prints(text, tags=None):
     """PrintT(<<"TAG", ToJson(v)>>) lines -> [(tag, obj)]"""
     res = []
+    if '<< "' in text:
+        # TLC pretty-prints long tuples over several lines: << "TAG",\n  "json" >>
+        for m in re.finditer(r'^<< "([A-Z]+)",\s*"((?:[^"\\]|\\.)*)"\s*>>', text, re.M):
+            if tags and m.group(1) not in tags:
+                continue
+            try:
+                res.append((m.group(1), json.loads(json.loads('"' + m.group(2) + '"'))))
+            except Exception:
+                continue
     for line in text.splitlines():
         if not line.startswith('<<"'):
             continue
